@@ -558,7 +558,9 @@ def family_sweep(ctx):
     for ct, kind in lab.writable_types():
         cd = CategoryChartData() if kind == "cat" else (XyChartData() if kind == "xy" else BubbleChartData())
         fams.setdefault(type(ChartXmlWriter(ct, cd)).__name__, (ct, kind))
-    nasty = ['q"uo"te', "a&b", "<x>", "it's", "]]>", 'yyyy"Q"q', "a\tb", "&amp;", "%s %d", '="'] + [gen_str(ctx.rng) for _ in range(4 if ctx.quick else 30)]
+    # (replacement fields of both formatting styles: a template that is formatted twice reads them as its own)
+    nasty = ['q"uo"te', "a&b", "<x>", "it's", "]]>", 'yyyy"Q"q', "a\tb", "&amp;", "%s %d", '="', "{ser_idx}", "{A}", "{0}", "}{", "{{x}}", "%(nf)s"] \
+        + [gen_str(ctx.rng) for _ in range(4 if ctx.quick else 30)]
     for fam, (ct, kind) in sorted(fams.items()):
         for s in nasty:
             for what in (["series-name", "number-format"] + (["category-label", "date-number-format"] if kind == "cat" else [])):
